@@ -8,6 +8,7 @@ import (
 	"errors"
 	"flag"
 	"fmt"
+	sasl "github.com/emersion/go-sasl"
 	"math/rand"
 	"os"
 	"strings"
@@ -54,6 +55,7 @@ type sessKind struct {
 	eof       bool   // the server closes right after the burst
 	connectTo bool   // password given through ConnectTo
 	stall     bool   // the server never reads: the registration lines stay queued until the connection ends
+	sasl      bool   // a SASL client is configured as well (the server password is still sent, and must still be masked)
 	flood     bool   // flood control on, the penalty already near the threshold (as after a quick reconnect): PASS itself is held back
 	second    string // a second session on the same client with another password, given through "connectTo" or "config"
 }
@@ -66,6 +68,7 @@ func kinds() []sessKind {
 		{name: "negotiation+stalled-server+eof", stall: true, neg: true, eof: true},
 		{name: "second-session-password-by-ConnectTo", second: "connectTo"}, {name: "second-session-password-in-Config", second: "config", neg: true},
 		{name: "ConnectTo-then-second-ConnectTo", connectTo: true, second: "connectTo"},
+		{name: "sasl-plain+server-password", sasl: true}, {name: "sasl-plain+server-password+tracking", sasl: true, tracking: true},
 		{name: "flood-control-on+penalty-near-threshold", flood: true}, {name: "negotiation+flood-control-on+penalty-near-threshold", flood: true, neg: true}}
 	for n := 1; n <= 4; n++ {
 		ks = append(ks, sessKind{name: fmt.Sprintf("write-%d-fails", n), failWrite: n})
@@ -78,6 +81,9 @@ func runSession(k sessKind, pw string, lg *capLog) []string {
 	lg.take()
 	s := sess.New(func(c *client.Config) {
 		c.EnableCapabilityNegotiation = k.neg
+		if k.sasl {
+			c.Sasl = sasl.NewPlainClient("", "account", "account-secret-not-the-server-password")
+		}
 		c.Flood = !k.flood
 		if !k.connectTo {
 			c.Pass = pw
